@@ -565,10 +565,9 @@ Definition ingest_decode (p : ingest_parser) (from until name : string) (wire_ok
   match parse_uint64 from with
   | None => DEvents [PvErr (e_from from)]
   | Some start =>
-      let endo := match parse_uint64 until with
-                  | Some e => Some e
-                  | None => match p with IPMultipart => Some 0%N (* error dropped: end stays 0 *) | IPBinary => None end
-                  end in
+      (* both decoders return the strconv error of `until` (the multipart one dropped it before the fix of
+         pProfProtoDec.Decode: end stayed 0 and the request was answered 200 -- ingest_until_dropped_orig below) *)
+      let endo := parse_uint64 until in
       match endo with
       | None => DEvents [PvErr (e_until until)]
       | Some en =>
@@ -582,6 +581,13 @@ Definition ingest_decode (p : ingest_parser) (from until name : string) (wire_ok
               end
           end
       end
+  end.
+
+(* the multipart decoder as it was: `if err != nil { fmt.Errorf("failed to parse end time: %w", err) }` (no return) *)
+Definition ingest_until_dropped_orig (p : ingest_parser) (until : string) : option N :=
+  match parse_uint64 until with
+  | Some e => Some e
+  | None => match p with IPMultipart => Some 0%N | IPBinary => None end
   end.
 
 Definition ingest_outcome (ct from until name : string) (wire_ok : bool) : cls :=
@@ -737,7 +743,7 @@ Definition ingest_malformed (ct from until name : string) (wire_ok : bool) : boo
      | None => true
      | Some p =>
          match parse_uint64 from with None => true | Some _ =>
-           (match p, parse_uint64 until with IPBinary, None => true | _, _ => false end)
+           (match parse_uint64 until with None => true | Some _ => false end)
            || negb (name_ok name) || negb wire_ok
          end
      end.
